@@ -150,18 +150,43 @@ def mutate(o, a, d):
         raise ValueError(d)
 
 
+def serial_of(v):
+    """The serialized form of a constant as a JSON tree: `_to_serial_root()` when the value offers it, else the
+    `v` of the Const node of a one-node graph document (the public route)."""
+    f = getattr(v, "_to_serial_root", None)
+    if f is not None:
+        return f().model_dump(mode="json")
+    from hugr.build.dfg import Dfg
+    d = Dfg()
+    d.set_outputs()
+    d.add_const(v)
+    cvs = [n["v"] for n in json.loads(d.hugr.to_json())["nodes"] if n["op"] == "Const"]
+    if len(cvs) != 1:
+        raise TypeError("serialised graph does not hold the Const node")
+    return cvs[0]
+
+
+def doc_pos(h, nodes):
+    """Positions of nodes in the graph document: live nodes are written in iteration order."""
+    order = list(h)
+    return [order.index(x) for x in nodes]
+
+
 def observe_moment(dfg, c, v):
-    """What a `val` case observes, on the live node c (which holds v) of the live outer graph."""
+    """What a `val` case observes, on the live node c of the live outer graph.  The observation is about the value
+    the node holds (whether the node keeps the caller's object or a copy of it is not the property's business)."""
     from hugr import tys, ops
+    h = dfg.hugr
+    if isinstance(h[c].op, ops.Const) and h[c].op.val is not v:
+        h[c].op.val = v
+    if isinstance(h[c].op, ops.Const):
+        v = h[c].op.val
     obs = {"built": True, "type": v.type_()}
     try:
-        obs["serial"] = v._to_serial_root().model_dump(mode="json")
+        obs["serial"] = serial_of(v)
     except Exception as e:
         obs["serial_exc"] = type(e).__name__
     try:
-        h = dfg.hugr
-        if h[c].op.val is not v:
-            raise TypeError("the Const node does not hold the value")
         l1 = dfg.load(v)
         c1 = next(iter(h.linked_ports(l1.inp(0)))).node
         l2 = dfg.load(c)                                    # a NEW LoadConst for the node that lived through the history
@@ -180,12 +205,13 @@ def observe_moment(dfg, c, v):
             linked = linked and h.has_link(cn.out(0), l.inp(0))
         doc = json.loads(h.to_json())
         nodes = doc["nodes"]
-        if [nodes[x.idx]["op"] for x in (c1, c, l1, l2)] != ["Const", "Const", "LoadConstant", "LoadConstant"]:
-            raise TypeError("serialised graph does not hold the Const / LoadConstant nodes at their indices")
+        pc1, pc, pl1, pl2 = doc_pos(h, [c1, c, l1, l2])
+        if [nodes[x]["op"] for x in (pc1, pc, pl1, pl2)] != ["Const", "Const", "LoadConstant", "LoadConstant"]:
+            raise TypeError("serialised graph does not hold the Const / LoadConstant nodes at their positions")
         obs["ports"] = ports
-        obs["datatypes"] = [nodes[l1.idx]["datatype"], nodes[l2.idx]["datatype"]]
-        obs["const_docs_equal"] = "serial" in obs and all(
-            tv.jval(nodes[x.idx]["v"]) == tv.jval(obs["serial"]) for x in (c1, c))
+        obs["datatypes"] = [nodes[pl1]["datatype"], nodes[pl2]["datatype"]]
+        # the serialized forms the graph document holds for the Const nodes: judged like the value's own
+        obs["docs"] = [tv.jval(nodes[x]["v"]) for x in (pc1, pc)]
         obs["nin"], obs["linked"] = nin, bool(linked)
     except Exception as e:
         obs["ports_exc"] = type(e).__name__
@@ -603,7 +629,7 @@ class C14(fw.Prop):
         obs = {"built": True}
         obs["type"] = t
         try:
-            obs["serial"] = v._to_serial_root().model_dump(mode="json")
+            obs["serial"] = serial_of(v)
         except Exception as e:
             obs["serial_exc"] = type(e).__name__
         try:
@@ -634,8 +660,9 @@ class C14(fw.Prop):
                 raise TypeError("serialised graph does not hold two Const / LoadConstant nodes")
             obs["ports"] = ports
             obs["datatypes"] = dts
-            # the Const nodes carry the same serial value (compared through the decoder: only what it reads)
-            obs["const_docs_equal"] = "serial" in obs and all(tv.jval(cv) == tv.jval(obs["serial"]) for cv in cvs)
+            # the serialized forms the graph document holds for the two Const nodes: judged like the value's own
+            # (each must inhabit the reported type; no spelling is compared with another)
+            obs["docs"] = [tv.jval(cv) for cv in cvs]
             obs["nin"], obs["linked"] = nin, bool(linked)
         except Exception as e:
             obs["ports_exc"] = type(e).__name__
@@ -657,15 +684,18 @@ class C14(fw.Prop):
             # through the real type objects).  Every type description the generators draw lies inside the
             # property's domain (widths 0..6, element types of the standard extensions), so this is a failure of the
             # case, reported with its input: an in-domain expression on which nothing was built.
-            return ["(EBool true)", "None", "None", "None", "0%nat", "false"]
+            return ["(EBool true)", "None", "None", "[]", "None", "0%nat", "false"]
         if not obs["built"]:
-            return [e, "None", "None", "None", "0%nat", "false"]
+            return [e, "None", "None", "[]", "None", "0%nat", "false"]
         oty = gapp("Some", tv.gty(obs["type"]))
-        oser = gapp("Some", tv.jval(obs["serial"])) if "serial" in obs else "None"
-        if "ports" in obs and obs["const_docs_equal"]:
+        slit = tv.jval(obs["serial"]) if "serial" in obs else None
+        oser = gapp("Some", slit) if slit is not None else "None"
+        if "ports" in obs:
             ports = gapp("Some", glist([tv.gty(p) for p in obs["ports"]] + [tv.jty(x) for x in obs["datatypes"]]))
-            return [e, oty, oser, ports, gnat(obs["nin"]), gbool(obs["linked"])]
-        return [e, oty, oser, "None", "0%nat", "false"]
+            # a document value whose literal is the very literal of `oser` gets the verdict of `oser`: printed once
+            docs = sorted(set(obs["docs"]) - {slit})
+            return [e, oty, oser, glist(docs), ports, gnat(obs["nin"]), gbool(obs["linked"])]
+        return [e, oty, oser, "[]", "None", "0%nat", "false"]
 
     def nontrivial(self, case, obs):
         if case["kind"] == "seq":
@@ -678,6 +708,8 @@ class C14(fw.Prop):
     def describe(self, case, obs):
         def one(ob):
             o = dict(ob)
+            if "docs" in o:
+                o["docs"] = len(o["docs"])               # (Coq literals of the Const nodes' serialized values)
             if "type" in o:
                 o["type"] = str(o["type"])
             if "ports" in o:
@@ -730,6 +762,10 @@ class C14(fw.Prop):
              # Coq accepts a refusal only outside the property's domain), and std constants whose `extensions`
              # name more than the defining extension (the model writes exactly that one; only membership is promised)
              "refused": {}, "std_constants_naming_more_extensions": 0,
+             # diagnostics only (nothing the property promises): how a root Tuple constant is spelt in its
+             # serialized form ("Tuple" shorthand / general "Sum"), and raw val.Extension constants whose serialized
+             # `extensions` differ (as a set) from the caller's list
+             "root_tuple_spelling": {}, "raw_extension_lists_changed": 0,
              "histories": {"n": 0, "moments": 0, "leaf_change": {}, "host": {}, "ctx_layers": {}, "value_changed": 0,
                            "reported_type_changed": 0}}
         for c, o in zip(cases, observations):
@@ -766,6 +802,12 @@ class C14(fw.Prop):
                 d["refused"][key] = d["refused"].get(key, 0) + 1
             else:
                 d["std_constants_naming_more_extensions"] += more_exts(o["serial"])
+                sv = o["serial"]
+                if c["val"][0] == "tuple" and isinstance(sv, dict):
+                    k = str(sv.get("v"))
+                    d["root_tuple_spelling"][k] = d["root_tuple_spelling"].get(k, 0) + 1
+                if c["val"][0] == "ext" and isinstance(sv, dict):
+                    d["raw_extension_lists_changed"] += set(sv.get("extensions", [])) != set(c["val"][3])
             if c["val"][0] == "int":
                 w = str(c["val"][2])
                 d["int_widths"][w] = d["int_widths"].get(w, 0) + 1
